@@ -276,7 +276,7 @@ func c19RunChain(c *C, ch c19Chain, pos c19Position, probesOnly bool) bool {
 	wantLog := append([]c19Event{}, c19Log...)
 	c19Log = nil
 	c19Mu.Unlock()
-	out, xerr := tpl.Execute(c19Ctx())
+	out, xerr := execSpread(tpl, c19Ctx(), hashStr(e))
 	c.Eval(1)
 	c19Mu.Lock()
 	gotLog := append([]c19Event{}, c19Log...)
